@@ -505,6 +505,15 @@ func (env *SpecEnv) call(e *SExpr) Val {
 			return scalar(Or(Eq(v.F[0].S, IntLit(0)), Not(Select(env.old.H(allocAKey, allocSort), v.F[0].S))), bt)
 		}
 		sfail("fresh() of %s", args[0])
+	case "pre":
+		// value of an expression when the enclosing loop was entered
+		need(1)
+		if env.loopPre == nil {
+			sfail("pre() used outside a loop invariant")
+		}
+		n := *env
+		n.cur = env.loopPre
+		return n.eval(args[0])
 	case "sinceLoop":
 		// allocated after the enclosing loop was entered (or nil)
 		need(1)
